@@ -82,6 +82,7 @@ DEPRECATED = sorted(f for f, (a, d) in FEATURES_VERSIONS.items() if d is not Non
 NEWER = sorted(f for f, (a, d) in FEATURES_VERSIONS.items() if a > 1)
 VERSIONS = [None] + list(range(1, LATEST_PROBLEM_KIND_VERSION + 1))
 SYNTH_MODULE = "upverif_c32_synthetic_engines"
+ENV = Environment()   # a Factory only keeps a reference to its environment; every case gets its own Factory(ENV)
 
 
 def added(f):
@@ -200,8 +201,19 @@ def make_class(spec):
     return cls
 
 
+_REFLECT = {}
+
+
 def reflect(name, cls):
-    """the record of a registered class, read through the same static methods the factory calls"""
+    """the record of a registered class, read through the same static methods the factory calls
+    (cached per class: the classes of the library are fixed within one run)"""
+    key = (name, cls)
+    if key not in _REFLECT:
+        _REFLECT[key] = _reflect(name, cls)
+    return _REFLECT[key]
+
+
+def _reflect(name, cls):
     sk = cls.supported_kind()
     return {"name": name, "modes": [m for m in MODES if getattr(cls, "is_" + m)()],
             "kind": kind_of(sk),
@@ -225,7 +237,7 @@ _BASE = {}
 def base_factory_info():
     """names / records of the built-in (non-meta, in-library) engines of a fresh factory"""
     if not _BASE:
-        f = Factory(Environment())
+        f = Factory(ENV)
         names = [n for n in f.engines if "[" not in n and n in DEFAULT_ENGINES
                  and DEFAULT_ENGINES[n][0].startswith("unified_planning.")]
         _BASE["names"] = sorted(names)
@@ -242,7 +254,7 @@ def build(fac):
     """fresh real Factory with the case's synthetic engines registered and its preference list set.
     Returns (factory, {class -> registry name})."""
     engines, pref = fac
-    f = Factory(Environment())
+    f = Factory(ENV)
     builtin = set(f.engines)
     back = {}
     mod = synth_module()
@@ -668,7 +680,7 @@ def pipe_case(rng, base, with_builtins):
 def finish_pipe(base, engines, chosen, pref, kind, cks):
     """tabulate the built-in compilers' declared resulting kinds on every kind a stage can see, and encode"""
     bi = {b: dict(base["records"][b], tr=("table", [])) for b in chosen}
-    f0 = Factory(Environment()) if bi else None
+    f0 = Factory(ENV) if bi else None
     level = [kind]
     for si, ck in enumerate(cks):
         nxt = []
@@ -694,7 +706,7 @@ def finish_pipe(base, engines, chosen, pref, kind, cks):
     return ["pipe", enc_factory(all_engines, pref), enc_kind(kind), list(cks)]
 
 
-def builtin_sweep(base):
+def builtin_sweep(base, full):
     """deterministic: every built-in compiler on its own full supported kind, alone and followed by every other
     built-in compilation kind, under the factory's default preference list (exercises each declared
     resulting_problem_kind through the pipeline branch)"""
@@ -704,16 +716,19 @@ def builtin_sweep(base):
         rec = base["records"][n]
         for ck in rec["comps"]:
             yield finish_pipe(base, [], list(base["names"]), list(base["default_pref"]), rec["kind"], [ck])
-            for ck2 in all_cks:
-                if ck2 != ck:
-                    yield finish_pipe(base, [], list(base["names"]), list(base["default_pref"]), rec["kind"], [ck, ck2])
+            follow = [c for c in all_cks if c != ck]
+            if not full and follow:   # quick tier: three follow-up kinds per compiler, rotating through all of them
+                i = all_cks.index(ck)
+                follow = [follow[(3 * i + j) % len(follow)] for j in range(3)]
+            for ck2 in follow:
+                yield finish_pipe(base, [], list(base["names"]), list(base["default_pref"]), rec["kind"], [ck, ck2])
 
 
 def cases(rng, tier):
     base = base_factory_info()
-    for c in builtin_sweep(base):
+    for c in builtin_sweep(base, tier != "quick"):
         yield c
-    n = 700 if tier == "quick" else 12000
+    n = 640 if tier == "quick" else 12000
     for i in range(n):
         r = rng.random()
         if r < 0.68:
